@@ -19,15 +19,27 @@ def Q.mul (a b : Q) : Q := ⟨a.n * b.n, a.d * b.d⟩
 def Q.div (a b : Q) : Q := ⟨a.n * b.d, a.d * b.n.toNat⟩
 def Q.ofInt (k : Int) : Q := ⟨k, 1⟩
 
+instance : Add Q := ⟨Q.add⟩
+instance : Sub Q := ⟨Q.sub⟩
+instance : Mul Q := ⟨Q.mul⟩
+instance : Div Q := ⟨Q.div⟩
+
+/-- row `r` of the 3×4 Neuroglancer transform, over any scalar type: affine entries `a r c`, translation
+    `t r` (millimetres), voxel sizes `v c` (mm), `million = 10^6` (nm per mm), `half = ½·10^6`:
+      R[r][c] = a[r][c] / v[c];   t'[r] = 10^6·t[r] − Σ_c R[r][c]·(½·10^6·v[c])
+    (`volume_reader.nibabel_image_to_info` divides the columns by the voxel sizes and scales the
+    translation; `transform.nifti_to_neuroglancer_transform` subtracts `R·(0.5·resolution)`) -/
+def rowG {α : Type} [Add α] [Sub α] [Mul α] [Div α] (a : Nat → Nat → α) (t v : Nat → α) (half million zero : α)
+    (r : Nat) : List α :=
+  let R := fun c => a r c / v c
+  [R 0, R 1, R 2, million * t r - (zero + R 0 * (half * v 0) + R 1 * (half * v 1) + R 2 * (half * v 2))]
+
 /-- the 3×4 Neuroglancer transform (row-major, 12 entries) from the affine `a` (3×4, row-major,
-    millimetres) and the voxel sizes `v` (mm):
-      R[r][c] = a[r][c] / v[c];   t[r] = 10^6·a[r][3] − Σ_c R[r][c]·(½·10^6·v[c]) -/
+    millimetres) and the voxel sizes `v` (mm), over exact rationals -/
 def neuroglancerTransform (a : List Q) (v : List Q) : List Q :=
   (List.range 3).flatMap fun r =>
-    let R := (List.range 3).map fun c => (a.getD (4 * r + c) ⟨0, 1⟩).div (v.getD c ⟨1, 1⟩)
-    let half := (List.range 3).map fun c => (Q.mul ⟨500000, 1⟩ (v.getD c ⟨1, 1⟩))
-    let shift := (List.zip R half).foldl (fun acc (x : Q × Q) => acc.add (x.1.mul x.2)) ⟨0, 1⟩
-    R ++ [((Q.ofInt 1000000).mul (a.getD (4 * r + 3) ⟨0, 1⟩)).sub shift]
+    rowG (fun r c => a.getD (4 * r + c) ⟨0, 1⟩) (fun r => a.getD (4 * r + 3) ⟨0, 1⟩) (fun c => v.getD c ⟨1, 1⟩)
+      ⟨500000, 1⟩ (Q.ofInt 1000000) ⟨0, 1⟩ r
 
 /-- `data_type` written into info_fullres.json and the "imperfect type" flag (exit status 4) -/
 def guessedType (inputTypeName : String) : String × Bool :=
